@@ -362,7 +362,7 @@ def parse_type_nofn(ts):
                     d -= 1
                     if d == 0: break
                 j += 1
-            if j + 1 < len(ts.t) and ts.t[j+1][1] == '*':
+            if j + 1 < len(ts.t) and (ts.t[j+1][1] == '*' or ts.t[j+1][0] in ('gvar', 'lvar')):      # 'ret (params)*' or a call-site function type 'void (i8*, ...) @callee'
                 ts.next(); ps = []; va = False
                 if not ts.accept(')'):
                     while True:
